@@ -338,6 +338,20 @@ def in_window(cert_der_bytes):
 X509_NAMES = ["quoting_enclave", "platform_ca", "ca2"]     # leaf first
 
 
+def _grind(data, shape, prefix):
+    """data followed by a two-byte counter chosen so that SHA-256(prefix + data) has the given
+    shape ('ends-00', 'starts-00', 'ends-0000'); data itself when no shape is asked for."""
+    if not shape:
+        return data
+    for k in range(2 ** 24):
+        cand = data + k.to_bytes(3, "big")
+        d = hashlib.sha256(prefix + cand).digest()
+        if (shape == "ends-00" and d[-1] == 0) or (shape == "starts-00" and d[0] == 0) or \
+                (shape == "ends-0000" and d[-2:] == b"\0\0"):
+            return cand
+    raise AssertionError("no digest of shape %s" % shape)
+
+
 def default_rb(seed_bytes, report_data):
     h = hashlib.sha512(seed_bytes).digest() * 4
     return {"cpusvn": h[:16], "miscselect": int.from_bytes(h[16:20], "big"),
@@ -382,8 +396,8 @@ class V2Cert:
                                                 self.parent[nm], self.keys[self.parent[nm]],
                                                 w.get(nm, "valid"), serial=7))
         att_pub = pub_raw64(self.keys["attestation"])
-        self.auth = s["auth"]
-        self.custom = s["custom"]
+        self.auth = _grind(s["auth"], s.get("grind_auth"), att_pub)
+        self.custom = _grind(s["custom"], s.get("grind_custom"), b"")
         rd_a = hashlib.sha256(att_pub + self.auth).digest() + s.get("rd_tail_a", bytes(32))
         self.qe_rb_fields = default_rb(b"qe" + s.get("seed", b""), rd_a)
         self.qe_rb = report_body(self.qe_rb_fields)
